@@ -241,7 +241,9 @@ AllProps == <<PT, PC(0), PC(2), PC(5), PG(0, 2), PTag, PV>>
 Class == IF Len(muts) = 1 THEN muts[1].class ELSE Combine(muts[1].class, muts[2].class)
 Behaviour ==
   [id |-> <<"parse", sphv, [i \in 1..Len(muts) |-> <<muts[i].name, muts[i].path>>]>>,
-   labels |-> <<"parse", Class>> \o [i \in 1..Len(muts) |-> muts[i].name] \o (IF sphv THEN <<"spherical">> ELSE <<"cartesian">>),
+   labels |-> <<"parse", Class>> \o [i \in 1..Len(muts) |-> muts[i].name] \o (IF sphv THEN <<"spherical">> ELSE <<"cartesian">>)
+              \o (IF Len(muts) = 2 /\ Len(muts[1].path) >= 2 /\ Len(muts[2].path) >= 2 /\ SubSeq(muts[1].path, 1, 2) = SubSeq(muts[2].path, 1, 2)
+                  THEN <<"same-feature">> ELSE <<>>),
    steps |-> <<[op |-> "create", h |-> 1, wb |-> ApplyAll(Base(sphv), muts, 1), expect |-> IF Class = "reject" THEN "throw" ELSE "any"]>>
              \* a world that was built must also answer (or refuse with an exception): values may be anything here, C13 judges them
              \o [i \in 1..4 |-> ProbePts(sphv)[i] @@ [op |-> "q", h |-> 1, dim |-> 3, props |-> AllProps, may_throw |-> TRUE]]]
